@@ -45,6 +45,7 @@ class Abs(object):
         self.p0 = dict((k, tm.sym("has[%s]" % key_name(k))) for k in self.keys)
         self.v0 = dict((k, dict((f, tm.sym("%s[%s]" % (f, key_name(k)))) for f in VAL_FIELDS)) for k in self.keys)
         self.problems = []
+        self._isfl = {}
 
     def elem(self, k, vals):
         args = []
@@ -125,6 +126,13 @@ class Abs(object):
         self.problems.append("factor list built by an operation outside the model: %s" % op)
         return dict((k, (tm.sym("?p"), self.v0[k])) for k in self.keys)
 
+    def is_factor_list(self, t):
+        r = self._isfl.get(t.id)
+        if r is None:
+            r = t is self.base or any(x is self.base for x in tm.subterms(t))
+            self._isfl[t.id] = r
+        return r
+
     def key_of_elem(self, f):
         if f.op != "adt":
             return None
@@ -146,7 +154,7 @@ class Abs(object):
         return r
 
     def _cond(self, c):
-        if c.op == "any" and c.a[0].op == "iter":
+        if c.op == "any" and c.a[0].op == "iter" and self.is_factor_list(c.a[0].a[0]):
             m = self.of(c.a[0].a[0])
             parts = []
             for k in self.keys:
@@ -167,7 +175,7 @@ class Abs(object):
         """A value term; lookups into intermediate lists become key-space expressions."""
         if t.op == "proj" and t.a[3] in VAL_FIELDS and t.a[0].op == "find_val":
             fv = t.a[0]
-            if fv.a[0].op == "iter":
+            if fv.a[0].op == "iter" and self.is_factor_list(fv.a[0].a[0]):
                 m = self.of(fv.a[0].a[0])
                 r = tm.sym("?missing")
                 for k in reversed(self.keys):
